@@ -194,7 +194,7 @@ fn templates() -> Vec<Template> {
         Template {
             name: "silent-access",
             above: false,
-            lines: vec![l("i = xs[", s(Silent("index-brackets")), None), l("0", s(Silent("index-brackets")), None), l("]", s(Stmt), s(Stmt))],
+            lines: vec![l("i = xs[", s(Silent("index-brackets")), s(Silent("index-brackets"))), l("0", s(Silent("index-brackets")), s(Silent("index-brackets"))), l("]", s(Stmt), s(Stmt))],
         },
         Template { name: "empty-list", above: false, lines: vec![l("e = [", s(Empty("list")), s(Empty("list"))), l("]", s(Stmt), s(Stmt))] },
         Template { name: "empty-record", above: false, lines: vec![l("e = {", s(Empty("record")), s(Empty("record"))), l("}", s(Stmt), s(Stmt))] },
@@ -646,6 +646,37 @@ pub fn run(ctx: &Ctx, replay: Option<&J>) -> i32 {
         let j = &jobs[i];
         check_case(ctx, &ts[j.t], &j.chosen, j.double, max_width);
     });
+    // positions the templates mark as *not* admitting a comment are probed against the grammar under
+    // test: if it accepts a comment there after all, that comment must survive like any other
+    {
+        let mut probes: Vec<String> = vec![];
+        for t in &ts {
+            for (li, line) in t.lines.iter().enumerate() {
+                let base: Vec<&str> = t.lines.iter().map(|l| l.text).collect();
+                if line.eol.is_none() {
+                    let mut v: Vec<String> = base.iter().map(|x| x.to_string()).collect();
+                    v[li] = format!("{} // probe eol", v[li]);
+                    probes.push(v.join("\n"));
+                }
+                if line.below.is_none() {
+                    let mut v: Vec<String> = base.iter().map(|x| x.to_string()).collect();
+                    let indent: String = line.text.chars().take_while(|c| *c == ' ').collect();
+                    v.insert(li + 1, format!("{}// probe own line", indent));
+                    probes.push(v.join("\n"));
+                    let mut w: Vec<String> = base.iter().map(|x| x.to_string()).collect();
+                    w.insert(li + 1, format!("{}  // probe own line, indented\n{}  // and a second one", indent, indent));
+                    probes.push(w.join("\n"));
+                }
+            }
+            if !t.above {
+                let base: Vec<&str> = t.lines.iter().map(|l| l.text).collect();
+                probes.push(format!("// probe above\n{}", base.join("\n")));
+            }
+        }
+        let accepted: Vec<String> = probes.into_iter().filter(|p| parse_program(p, true).is_ok()).collect();
+        ctx.set("unannotated_positions_accepted_by_the_grammar", json!(accepted.len()));
+        par_for(accepted.len(), |i| check_nested(ctx, &accepted[i], max_width, "unannotated-position"));
+    }
     let nested = nested_container_programs();
     par_for(nested.len(), |i| check_nested(ctx, &nested[i], max_width, "nested-container"));
     let deep = deep_commented_programs(thorough);
